@@ -246,6 +246,8 @@ class Prop:
         ops = []
         nops = rng.randint(4, 14 if tier == 'quick' else 24)
         srcs = [0, 1, 2]
+        if rng.random() < 0.85:      # mostly start from a non-empty table (an empty family is the open finding C12-3)
+            n, mx, a = rng.choice(pool); ops.append(('ins', rng.choice(srcs), n, mx, a))
         for _ in range(nops):
             x = rng.random()
             n, mx, a = rng.choice(pool)
@@ -360,7 +362,7 @@ class Prop:
                                      ('rem', 1, n(10, 1, 0, 0, 16), 24, 65000), ('rem', 2, n(10, 1, 0, 0, 16), 24, 65000),
                                      ('reset', 0, [(n(10, 2, 0, 0, 16), 16, 1), (n(10, 2, 0, 0, 16), 16, 1)]), ('drop', 0), ('iter',)]},
         ]
-        nh, nr, nn = (500, 150, 60) if tier == 'quick' else (6000, 1500, 400)
+        nh, nr, nn = (1500, 400, 150) if tier == 'quick' else (8000, 2000, 600)
         for _ in range(nh): cases.append(self.history_case(rng, tier))
         for _ in range(nr): cases.append(self.real_case(rng, rng.choice([4, 4, 6])))
         for _ in range(nn): cases.append(self.history_case(rng, tier, noncanon=True))
